@@ -54,11 +54,15 @@ inductive Stmt
   | createIndex (t name : String) (cols : List String) (unique : Bool) (usingT : String)
   | dropIndex (t name : String)
   | commentOn (t c text : String)
+  -- Postgres spellings of "modify column" the reader glue handles one aspect at a time (read only: sqlize never prints them)
+  | alterType (t c typ : String)                    -- ALTER TABLE t ALTER COLUMN c TYPE typ
+  | setDefault (t c : String) (d : DefaultVal)      -- ALTER TABLE t ALTER COLUMN c SET DEFAULT d
+  | dropNotNull (t c : String)                      -- ALTER TABLE t ALTER COLUMN c DROP NOT NULL
   deriving DecidableEq, Repr, Inhabited
 
 def Stmt.table : Stmt → String
   | .createTable t .. | .dropTable t | .addColumn t .. | .dropColumn t _ | .modifyColumn t _ | .renameColumn t ..
   | .addPrimaryKey t _ | .dropPrimaryKey t | .addFk t .. | .dropFk t _ | .renameIndex t .. | .createIndex t ..
-  | .dropIndex t _ | .commentOn t .. => t
+  | .dropIndex t _ | .commentOn t .. | .alterType t .. | .setDefault t .. | .dropNotNull t _ => t
 
 end Sqlize
